@@ -241,6 +241,13 @@ ROUND7 = {
     "C17": "Round 7: comment modes of other TOML types; every misuse of the codegen-only @mixin directive.",
     "C19": "Round 7: a transport fault on the first introspection request (every request sent carries the configured headers and TLS flag); URLs that httpx refuses, parsed by the real URL parser.",
 }
+ROUND8 = {
+    "C10": "Round 8: colliding-name stress inputs; the regenerate history is also run with two REAL processes (first run into a fresh directory, second run over it); the thorough tier squares the deviation bound per input only where the one-deviation space has <= 130 runs and records the bound completed per input.",
+    "C14": "Round 8: the history search also runs for the OpenTelemetry clients (depth 1) and includes input-object arguments.",
+    "C16": "Round 8: long description texts; the real command run under non-UTF-8 process locales for non-ASCII schemas.",
+}
+for _k, _v in ROUND8.items():
+    ROUND7[_k] = (ROUND7.get(_k, "") + " " + _v).strip()
 for _k, _v in ROUND7.items():
     ADDENDA[_k] = (ADDENDA.get(_k, "") + " " + _v).strip()
 for _k, _v in ADDENDA.items():
